@@ -7,6 +7,7 @@ package main
 //   insp <name> <id> <strct> <gval>            message built from the tree, then pogs.Insert over it -> resulting struct tree
 //   rt2 <name> <id> <gval> <gval>              two pogs.Insert into one struct, then pogs.Extract
 //   hostile <name> <arena> <T> <D> <segs>      pogs.Extract from a hostile message: ok/err/PANIC/HANG, allocation vs budget (hostile.go)
+//   extf <name> <id> <k> <strct>               like ext, the message built on a multi-segment arena with tiny segments (far pointers)
 //   ext2 <name> <id> <strctA> <strctB>         Extract A then B into one destination: = fresh extraction of B, A's slices intact
 //   ext <name> <id> <strct>                    message built from the tree -> pogs.Extract (+ Go-side comparison with the generated getters)
 //   gen <name> <id> <strct>                    message built from the tree -> generated getters
@@ -27,11 +28,29 @@ func main() { Main(runC19) }
 
 var schemaByName = map[string]*mschema{}
 
+// number of extf messages that really span several segments (far pointers)
+var farMultiSeg int
+
 func nodeOf(ms *mschema, id int) *mnode {
 	if id < 1 || id > len(ms.nodes) || ms.nodes[id-1].isGroup {
 		panic("bad case: node id")
 	}
 	return ms.nodes[id-1]
+}
+
+// farSeg: a multi-segment arena with small pre-sized segments (capacities derived from k): the
+// struct tree built in it is connected by far and double-far pointers.
+func farSeg(k int) *capnp.Segment {
+	n := 1 + k%6
+	bufs := make([][]byte, n)
+	for i := range bufs {
+		bufs[i] = make([]byte, 0, 8*(1+(k*7+i*5)%12))
+	}
+	// (capnp.NewMessage refuses an arena that already has several, empty, segments)
+	msg := &capnp.Message{Arena: capnp.MultiSegment(bufs)}
+	seg, err := msg.Segment(0)
+	must(err)
+	return seg
 }
 
 func newSeg() *capnp.Segment {
@@ -226,9 +245,16 @@ func runCase(line string) (kind, impl, class string, nontrivial bool) {
 			r += " ALIAS-CLOBBERED was" + Trunc(snap, 300)
 		}
 		return kind, r, ms.name + "/ok", true
-	case "ext", "gen":
+	case "ext", "gen", "extf":
+		seg := newSeg()
+		if kind == "extf" {
+			seg = farSeg(t.int())
+		}
 		a := parseStruct(t)
-		st := buildStruct(newSeg(), a)
+		st := buildStruct(seg, a)
+		if kind == "extf" && seg.Message().NumSegments() > 1 {
+			farMultiSeg++
+		}
 		if back := exportStruct(st); back != a.String() {
 			panic(bug("builder/exporter disagree: " + back + " vs " + a.String()))
 		}
@@ -322,6 +348,8 @@ func runC19(out *Out, r *Rand, tier string, replay []string) {
 			do(fmt.Sprintf("gen %s %d %s", ms.name, root.id, a))
 			a = g.astruct(root, 0)
 			do(fmt.Sprintf("ext %s %d %s", ms.name, root.id, a))
+			// the same kind of tree on a multi-segment arena with tiny segments: far / double-far pointers
+			do(fmt.Sprintf("extf %s %d %d %s", ms.name, root.id, g.r.Intn(1000), g.astruct(root, 0)))
 			// two Extracts into one destination (same root member half of the time)
 			a = g.astruct(root, 0)
 			g.forceRootWhich = -1
@@ -337,6 +365,7 @@ func runC19(out *Out, r *Rand, tier string, replay []string) {
 			}
 		}
 	}
+	out.Extra["x_extf_multi_segment_messages"] = farMultiSeg
 	out.Close("cases per mapped Go type: rt/ins = random Go values (all field kinds, nil/empty, inactive members set, unknown Which) " +
 		"into structs of schema size / shorter / longer; ext/gen = struct trees generated from the schema with random data bytes, " +
 		"sections shorter/longer than the schema, null / well-kinded / wrong-kinded pointers. distinct = distinct case line; " +
